@@ -76,3 +76,32 @@ Theorem C09_reinsertion_returns_an_equal_invocation : forall s t a a' s',
   inv3 s -> rep s t a -> add_expr t s = Ok (a', s') -> s' = s /\ eg_eq s' a a' = Ok true.
 Proof. exact reinsert_equal. Qed.
 Print Assumptions C09_reinsertion_returns_an_equal_invocation.
+
+(* third session (EGraph/RepFacts.v): `rep` PERSISTS along any step that keeps the state good (canonical shapes,
+   self-symmetries complete), keeps equalities and loses no node lookup (`rstep`); a lookup does not distinguish nodes
+   whose children are pairwise equal; and the per-run certified form: on every run on which the executable check
+   handles_repb is true (machine egc evaluates it on every explored history) every earlier term is found by an
+   invocation equal to its handle and re-inserting it changes nothing.  The unconditional reachable-state forms
+   (RepFacts.reachable_handles_rep, reinsertion_is_identity_reachable) still rest on five per-operation hypotheses
+   (self-symmetries preserved / no stored node lost by a miss-insertion and by a genuine union) and are therefore not
+   listed here. *)
+From SE Require Import Lang.RenameFacts EGraph.NodeCong EGraph.KidEqFacts EGraph.RepFacts.
+Theorem C09_lookup_does_not_distinguish_equal_children : forall s m l x,
+  good s -> List.NoDup (binders m) -> List.Forall2 (kid_eq s) (app_occ m) l ->
+  eg_lookup s m = Ok (Some x) ->
+  exists x', eg_lookup s (set_apps m l) = Ok (Some x') /\ eg_eq s x x' = Ok true.
+Proof. exact lookup_kid_eq. Qed.
+Print Assumptions C09_lookup_does_not_distinguish_equal_children.
+
+Theorem C09_represented_terms_stay_represented : forall s s', good s -> rstep s s' ->
+  forall t a, twf t -> rep s t a -> rep s' t a.
+Proof. exact rep_persist. Qed.
+Print Assumptions C09_represented_terms_stay_represented.
+
+Theorem C09_checked_reinsertion_is_identity : forall terms ops hs s k a t,
+  run_ops terms ops [] empty_egraph = Ok (hs, s) -> handles_repb terms ops hs s = true ->
+  List.In (k, a) (List.combine (add_idx ops) hs) -> nth_opt terms k = Some t ->
+  (exists x, lookup_rec s t = Ok (Some x) /\ eg_eq s x a = Ok true) /\
+  (forall a' s', add_expr t s = Ok (a', s') -> s' = s /\ eg_eq s' a a' = Ok true).
+Proof. exact reinsertion_checked. Qed.
+Print Assumptions C09_checked_reinsertion_is_identity.
